@@ -231,6 +231,21 @@ def run(ctx, chk):
                 key = 'alias:%s:%04x/%04x' % (buf, a['segs'][0][0], b['segs'][0][0])
                 from ..affine import diff_const as _dc
                 same_map = a['index'] == b['index'] or _dc(a['index'], b['index'], a['env'], 64) == 0
+                if same_map:
+                    # ... provided the expression is injective over the union of the two ranges: base + addr always is;
+                    # base + (addr & m) only while the masked-off bits agree on every address of both ranges
+                    mm_ = addr_mask(a['index'])
+                    if mm_ is not None:
+                        ends = [a['segs'][0][0], a['segs'][-1][1], b['segs'][0][0], b['segs'][-1][1]]
+                        if len(set(x_ & ~mm_ & 0xffff for x_ in ends)) != 1:
+                            same_map = False
+                    else:
+                        from ..affine import aff as _aff2
+                        co_, c0_, w_ = _aff2(a['index'], a['env'])
+                        at_ = [(x_, k_) for x_, k_ in co_.items() if mentions(x_, bm.ADDR)]
+                        if not (len(at_) == 1 and at_[0][1] == 1 and (at_[0][0] == bm.ADDR or (
+                                at_[0][0][0] == 'o' and at_[0][0][2] in ('zext', 'trunc') and at_[0][0][3] == bm.ADDR))):
+                            same_map = False
                 if same_map and a['segs'] != b['segs']:
                     # two address ranges served by one and the same index expression (e.g. a match arm per 4K page):
                     # distinct addresses share a cell only if that expression is not injective in the address, which
@@ -310,7 +325,12 @@ def run(ctx, chk):
                         if fx and fx[0] == 'const':
                             envx.assume_eq(s_, fx[1])
                 av_end = envx.av(endt)
-                if not (av_end.hi <= hi + 1 or _bp.equal_under(O(1, 'ule', endt, lim), C(1, 1), envx, 1) is True):
+                from ..affine import diff_const as _dc5
+                envs = envx.copy()
+                envs.assume(f['start'], AV(64, f['lo'], f['hi']))
+                cend = _dc5(endt, C(64, 0), envs, 64)
+                if not (av_end.hi <= hi + 1 or (cend is not None and cend <= hi + 1) or
+                        _bp.equal_under(O(1, 'ule', endt, lim), C(1, 1), envx, 1) is True):
                     okk = False
                     why = ('the fetch view that starts in 0x%04x-0x%04x can extend past 0x%04x (length %s): bytes beyond the '
                            'region come from the buffer\'s linear continuation, not from what the bus maps there'
